@@ -92,9 +92,20 @@ func build(s docSpec) (*did.Doc, error) {
 		d.Service = append(d.Service, did.Service{ID: fmt.Sprintf("svc%d", i+1), Type: fmt.Sprintf("Type%d", i+1), ServiceEndpoint: endpoint.NewDIDCommV1Endpoint(fmt.Sprintf("https://svc%d.example/ep", i+1))})
 	}
 	for i := 0; i < s.akas; i++ {
-		d.AlsoKnownAs = append(d.AlsoKnownAs, fmt.Sprintf("https://aka%d.example/", i+1))
+		d.AlsoKnownAs = append(d.AlsoKnownAs, akaURI(i))
 	}
 	return d, nil
+}
+
+// akaURI is the i-th also-known-as URI of a document: two plain ones, then URIs that are valid but not spelled the way a URL
+// library would print them (an empty fragment, non-ASCII and pct-encoded characters, upper-case scheme and host) - they are data
+// and come back as supplied.
+func akaURI(i int) string {
+	unusual := []string{"https://www.w3.org/ns/activitystreams#", "https://example.com/users/jos\u00e9", "HTTPS://Upper.example/Me", "did:example:123#", "http://x.example/%7Euser", "https://x.example/a?b=c d"}
+	if i < 2 {
+		return fmt.Sprintf("https://aka%d.example/", i+1)
+	}
+	return unusual[(i-2)%len(unusual)]
 }
 
 var relNames = map[did.VerificationRelationship]string{did.Authentication: "authentication", did.AssertionMethod: "assertionMethod", did.KeyAgreement: "keyAgreement",
@@ -126,7 +137,7 @@ func summarizeSpec(s docSpec) string {
 		svcs = append(svcs, fmt.Sprintf("svc%d|Type%d|https://svc%d.example/ep", i+1, i+1, i+1))
 	}
 	for i := 0; i < s.akas; i++ {
-		akas = append(akas, fmt.Sprintf("https://aka%d.example/", i+1))
+		akas = append(akas, akaURI(i))
 	}
 	return core.J(M{"vm": vm, "rels": rels, "svcs": svcs, "akas": akas})
 }
@@ -246,6 +257,8 @@ func Run(r *core.Run) {
 		{"three-keys", []vmSpec{{"k1", jw, keys.New("Ed25519", 204), false, []did.VerificationRelationship{A, CI}}, {"k2", jw, keys.New("P-256", 204), false, []did.VerificationRelationship{KA}},
 			{"k3", jw, keys.New("secp256k1", 204), false, []did.VerificationRelationship{AS, CD}}}, 2, 2},
 		{"services-only", nil, 2, 1},
+		{"akas-unusual-spellings", []vmSpec{{"k1", jw, keys.New("Ed25519", 214), false, []did.VerificationRelationship{A}}}, 0, 8},
+		{"akas-only-unusual", nil, 0, 5},
 		// ids that an order other than the plain string order would tie or swap: numbers with leading zeros, a bare name next to
 		// name0, letter case, a prefix, digits against letters
 		{"ids-leading-zeros", []vmSpec{{"key1", jw, keys.New("Ed25519", 205), false, []did.VerificationRelationship{A}}, {"key01", jw, keys.New("Ed25519", 206), false, []did.VerificationRelationship{A}},
